@@ -424,10 +424,59 @@ def case_solved(rec, c):
     rec.trace()
 
 
+GDESIGN = [1e-300, 1e-30, 1e-12, 3e-9, 1e-8, 5e-8, 1e-7, 9e-7, 1e-6, 1e-5, 1e-3, 0.25, 1.0, 1.0 + 1e-9, 3.0, 40.0]
+
+
+def case_gdesign(rec, c):
+    """pair_correlation = h + 1 and pmf = -kT ln g on a real-space total correlation that the caller populated with designed
+    values of g from 1e-300 (deep inside a soft repulsive flank) to 40: every element, wherever g > 0, to rounding."""
+    import pyPRISM
+    n, kT = c['rank'], c['kT']
+    spec = base_spec(n, 'equal', kT)
+    types = spec['types']
+    P = build.create_prism(spec)
+    L = P.sys.domain.length
+    Hr = np.zeros((L, n, n))
+    for i in range(n):
+        for j in range(i, n):
+            g = np.array([GDESIGN[(m + 3 * i + 5 * j) % len(GDESIGN)] for m in range(L)])
+            Hr[:, i, j] = Hr[:, j, i] = g - 1.0
+    P.totalCorr = pyPRISM.MatrixArray(length=L, rank=n, data=Hr.copy(), space=pyPRISM.Space.Real, types=types)
+    rec.state()
+    gref = Hr + 1.0                       # the same floating-point operation the definition prescribes
+    for name in ('pair_correlation', 'pmf'):
+        Q = copy.deepcopy(P)
+        rec.trans()
+        try:
+            out = do_call(Q, name, None)
+        except Exception as e:
+            rec.fail(dict(c, call=name), '%s on a real-space total correlation populated by the caller raised %s: %s' % (name, type(e).__name__, str(e)[:80]),
+                     {'func': name, 'kind': 'raises', 'rank': n})
+            continue
+        got = np.asarray(out.data, dtype=float)
+        if name == 'pair_correlation':
+            want = gref
+            bad = got != want
+        else:
+            pos = gref > 0
+            with np.errstate(all='ignore'):
+                want = np.where(pos, -kT * np.log(np.where(pos, gref, 1.0)), np.nan)
+            bad = pos & ~(np.abs(got - want) <= 8 * np.finfo(float).eps * np.abs(want) + 1e-300)
+        if got.shape != want.shape or np.any(bad):
+            idx = tuple(int(v) for v in np.argwhere(bad)[0]) if got.shape == want.shape else None
+            rec.fail(dict(c, call=name), '%s, rank %d, kT=%g: at an element where g = h+1 = %r the result is %r, the definition gives %r'
+                     % (name, n, kT, float(gref[idx]) if idx else None, float(got[idx]) if idx else None, float(want[idx]) if idx else None),
+                     {'func': name, 'kind': 'value', 'rank': n},
+                     repro=("import numpy as np, pyPRISM\n# populate totalCorr (real space) with g - 1 for g = 1e-12 ... and call pyPRISM.calculate.%s(PRISM)\n"
+                            "# pmf must be -kT*np.log(g) = %r at g = %r") % (name, float(want[idx]) if idx else None, float(gref[idx]) if idx else None))
+        rec.outcome(core.digest([n, kT, name, np.nan_to_num(got[:16, 0, 0])], 9))
+    rec.trace()
+
+
 def replay(rec, case):
     with warnings.catch_warnings(), np.errstate(all='ignore'):
         warnings.simplefilter('ignore')
-        {'pop': case_pop, 'chiw': case_chiw, 'solved': case_solved}[case['kind']](rec, case)
+        {'pop': case_pop, 'chiw': case_chiw, 'solved': case_solved, 'gdesign': case_gdesign}[case['kind']](rec, case)
 
 
 def _worker(chunk):
@@ -456,13 +505,15 @@ def run(rec, tier, seed):
                     cases.append({'kind': 'chiw', 'rank': n, 'pair': [i, j], 'diam': diam, 'flags': fl})
     for s in ['mono', 'bin', 'ter', 'quat']:
         cases.append({'kind': 'solved', 'system': s})
+    for n, kT in itertools.product(ranks, [1.0, 0.6, 1.7]):
+        cases.append({'kind': 'gdesign', 'rank': n, 'kT': kT})
     chunks = [cases[i::48] for i in range(48)]
     core.pmap(_worker, [c for c in chunks if c], rec)
     att, conv = rec.c.get('solve_attempted', 0), rec.c.get('solve_converged', 0)
     if att and conv == 0:
         raise HarnessError('no solved system converged: the solved-object part decided nothing')
     rec.note('alphabets', {'ranks': ranks, 'data_sets': datas, 'flag_states': 8, 'diameters': DIAM, 'densities': RHO, 'kT': [1.0, 1.7],
-                           'calls': [[a, b] for a, b in CALLS], 'type_names': NAMES})
+                           'calls': [[a, b] for a, b in CALLS], 'type_names': NAMES, 'designed_g_values_for_pmf': GDESIGN})
     rec.note('attempted/converged', [att, conv])
     rec.sample({'kind': 'pop', 'rank': 3, 'data': 'A', 'flags': ['R', 'F', 'R'], 'diam': 'unequal', 'kT': 1.7})
     rec.sample({'kind': 'chiw', 'rank': 3, 'pair': [1, 2], 'diam': 'unequal', 'flags': ['F', 'F', 'F']})
